@@ -2,10 +2,10 @@
 # usage: tools/confirm_seeded.sh <Cxx> <mutA|mutB>   — independent confirmation of a seeded change in a scratch worktree:
 #  (1) applies to the current /repo HEAD, (2) existing suite passes with it, (3) demo fails with it, (4) demo passes without it.
 id="$1"; mut="$2"
-src=/tmp/mut/$id.out
-wt=/tmp/confirm/${id}_${mut}
-out=/tmp/confirm/${id}_${mut}.json
-mkdir -p /tmp/confirm
+src=${MUTDIR:-/tmp/mut}/$id.out
+wt=${CONFDIR:-/tmp/confirm}/${id}_${mut}
+out=${CONFDIR:-/tmp/confirm}/${id}_${mut}.json
+mkdir -p ${CONFDIR:-/tmp/confirm}
 git -C /repo worktree remove --force "$wt" 2>/dev/null
 git -C /repo worktree add -q --detach "$wt" HEAD || exit 9
 cd "$wt" || exit 9
